@@ -39,6 +39,13 @@ TOL = 1e-9
 BETAS = (0.5, 1.0, 2.0)
 UNDEF = M.UNDEF
 
+# clause names: "equals-definition:<slug>"
+SLUG = {"Pairwise Precision": "pairwise-precision", "Pairwise Recall": "pairwise-recall",
+        "Pairwise F-measure": "pairwise-f", "Rand Index": "rand", "Adjusted Rand Index": "ari",
+        "Mutual Information": "mi", "Adjusted Mutual Information": "ami", "Normalized Mutual Information": "nmi",
+        "NCE Over": "nce-over", "NCE Under": "nce-under", "NCE F-measure": "nce-f",
+        "V Precision": "v-precision", "V Recall": "v-recall", "V-measure": "v-f"}
+
 # ------------------------------------------------------------------------------------------ phase menus
 # (reference names, estimate names): six distinct names each, no two names of one side equal ignoring case;
 # the estimate's names sort differently from their first-use order, so "same partition, other names" is exercised.
@@ -171,10 +178,10 @@ def _agree(obs, exp):
     return lib.close(obs, float(exp), TOL)
 
 
-def check_pair(acc, rb, rl, eb, el, fs, betas, case_rel=False):
+def check_pair(acc, rb, rl, eb, el, fs, betas, case_rel=False, full_identity=True):
     """All clauses of C16 on one (reference, estimate, frame_size) state."""
     case = lambda: {"kind": "pair", "rb": list(rb), "rl": list(rl), "eb": list(eb), "el": list(el),  # noqa
-                    "fs": fs, "betas": list(betas), "case_rel": case_rel}
+                    "fs": fs, "betas": list(betas), "case_rel": case_rel, "full_identity": full_identity}
     # ---- model side (inputs only)
     yr = M.frame_labels(_ivs(rb), rl, fs)
     ye = M.frame_labels(_ivs(eb), el, fs)
@@ -213,10 +220,15 @@ def check_pair(acc, rb, rl, eb, el, fs, betas, case_rel=False):
     def compare(key, site, obs, exp):
         if exp == UNDEF:
             c["undef." + key] += 1
+            # observation only (never a verdict here): what the library returns where the formula is 0/0
+            if isinstance(obs, float) and obs != obs:
+                c["obs.nan_where_undefined." + key] += 1
+            elif isinstance(obs, float) and key == "Normalized Mutual Information" and abs(obs) > TOL:
+                c["obs.nmi_not_0_when_one_side_is_one_cluster"] += 1
             return
         acc.conform += 1
         if not _agree(obs, exp):
-            acc.violation("equals-definition:" + key, site, case(), observed={key: obs},
+            acc.violation("equals-definition:" + SLUG[key], site, case(), observed={key: obs},
                           expected={key: float(exp)})
 
     def raised(site, msg):
@@ -285,8 +297,12 @@ def check_pair(acc, rb, rl, eb, el, fs, betas, case_rel=False):
                 compare(key, "segment.nce", o, e)
             if beta == betas[0]:
                 summary.extend(t[:2])
-        ok, val = _lib(acc, segment.nce, rb, rl, eb, el, frame_size=fs, beta=beta, marginal=True)
-        tm = triple_or_violation("segment.nce[marginal=True]", ok, val)
+        tm = None
+        if beta == 1.0 or full_identity:
+            # (vmeasure itself is compared with the model for every beta; the second path to the same numbers
+            # is executed for every beta only in the smaller spaces - nce costs ~3 ms per call)
+            ok, val = _lib(acc, segment.nce, rb, rl, eb, el, frame_size=fs, beta=beta, marginal=True)
+            tm = triple_or_violation("segment.nce[marginal=True]", ok, val)
         if tm is not None:
             for key, o, e in zip(("V Precision", "V Recall", "V-measure"), tm, M.nce(tab, beta, True)):
                 compare(key, "segment.nce[marginal=True]", o, e)
@@ -332,7 +348,7 @@ def check_pair(acc, rb, rl, eb, el, fs, betas, case_rel=False):
 
 # ------------------------------------------------------------------------------------------ shards
 def shard_pairs(arg):
-    refs, ests, fss, betas, case_rel = arg
+    refs, ests, fss, betas, case_rel, full_identity = arg
     acc = core.Acc(PID)
     for (rb, rl) in refs:
         for (eb, el) in ests:
@@ -341,11 +357,13 @@ def shard_pairs(arg):
             for fs in fss:
                 acc.states += 1
                 acc.tick(lambda: {"kind": "pair", "rb": list(rb), "rl": list(rl), "eb": list(eb), "el": list(el),
-                                  "fs": fs, "betas": list(betas), "case_rel": case_rel})
-                check_pair(acc, rb, rl, eb, el, fs, betas, case_rel)
+                                  "fs": fs, "betas": list(betas), "case_rel": case_rel,
+                                  "full_identity": full_identity})
+                check_pair(acc, rb, rl, eb, el, fs, betas, case_rel, full_identity)
     if refs and ests:
         acc.sample({"kind": "pair", "rb": list(refs[-1][0]), "rl": list(refs[-1][1]), "eb": list(ests[-1][0]),
-                    "el": list(ests[-1][1]), "fs": fss[0], "betas": list(betas), "case_rel": case_rel})
+                    "el": list(ests[-1][1]), "fs": fss[0], "betas": list(betas), "case_rel": case_rel,
+                    "full_identity": full_identity})
     return acc
 
 
@@ -353,7 +371,7 @@ def replay(case, acc):
     if case.get("kind") != "pair":
         raise core.HarnessError("unknown case kind %r" % case.get("kind"))
     check_pair(acc, tuple(case["rb"]), tuple(case["rl"]), tuple(case["eb"]), tuple(case["el"]), case["fs"],
-               tuple(case["betas"]), case.get("case_rel", False))
+               tuple(case["betas"]), case.get("case_rel", False), case.get("full_identity", True))
 
 
 # ------------------------------------------------------------------------------------------ model validation
@@ -437,34 +455,34 @@ def run(run):
     ests = annotations(n_main, 3, en, cell)
     nsh = 64 if thorough else 48
     run.explore("main %d cells x fs%s x beta%s" % (n_main, fss, list(BETAS)), mod, "shard_pairs",
-                [(ch, ests, fss, BETAS, False) for ch in core.chunks(refs, nsh)])
+                [(ch, ests, fss, BETAS, False, False) for ch in core.chunks(refs, nsh)])
     # small spans with one name per segment
     top = 5 if thorough else 4
     shards = []
     for ncells in range(1, top + 1):
         r = annotations(ncells, ncells, rn, cell)
         e = annotations(ncells, ncells, en, cell)
-        shards += [(ch, e, fss, BETAS, False) for ch in core.chunks(r, 16 if ncells >= 4 else 1)]
+        shards += [(ch, e, fss, BETAS, False, True) for ch in core.chunks(r, 16 if ncells >= 4 else 1)]
     run.explore("small spans 1..%d cells, <=1 name per segment" % top, mod, "shard_pairs", shards)
     # documented default frame size on the off-grid lattice
     n01 = 5 if thorough else 4
     r = annotations(n01, 3, rn, 0.5, shift=0.05)
     e = annotations(n01, 3, en, 0.5, shift=0.05)
     run.explore("fs0.1, %d cells, boundaries at odd multiples of 0.05" % n01, mod, "shard_pairs",
-                [(ch, e, [0.1], (1.0,), False) for ch in core.chunks(r, 32)])
+                [(ch, e, [0.1], (1.0,), False, True) for ch in core.chunks(r, 32)])
     # case collisions
     crn, cen = CASE_MENUS[ph]
     ncase = 5 if thorough else 4
     r = annotations(ncase, 4, crn, cell)
     e = annotations(ncase, 4, cen, cell)
     run.explore("case-colliding names, %d cells" % ncase, mod, "shard_pairs",
-                [(ch, e, [cell], (1.0,), True) for ch in core.chunks(r, 48)])
+                [(ch, e, [cell], (1.0,), True, True) for ch in core.chunks(r, 48)])
     # frame-count panel
     shards = []
     for n in ((64, 81, 100) if thorough else (64, 100)):
         r = frame_panel(n, rn, 0.25)
         e = frame_panel(n, en, 0.25)
-        shards += [(ch, e, [0.25], (1.0,), False) for ch in core.chunks(r, 16)]
+        shards += [(ch, e, [0.25], (1.0,), False, True) for ch in core.chunks(r, 16)]
     run.explore("frame-count panel", mod, "shard_pairs", shards)
     run.require_nonvacuous(
         "in.partitions_coincide", "in.partitions_coincide_other_names_or_cuts", "in.both_one_cluster",
